@@ -547,7 +547,53 @@ func c02DecideByTime(c *Ctx) {
 		return
 	}
 	name := core.FuncName(fn)
-	allowedCallee := func(call *ssa.Call) bool {
+	// a helper of the module that never looks at a column's value (UpdateTime, DeleteUpdateTime,
+	// hideDeletedValue today — found by what they do, not by their names): it loads no field called
+	// Value, calls no GetValue, and everything it calls is allowed in a decision itself
+	var allowedCallee func(call *ssa.Call) bool
+	timeOnlyMemo := map[*ssa.Function]bool{}
+	var timeOnly func(f *ssa.Function, depth int) bool
+	timeOnly = func(f *ssa.Function, depth int) bool {
+		if r, ok := timeOnlyMemo[f]; ok {
+			return r
+		}
+		if f == nil || len(f.Blocks) == 0 || depth > 2 {
+			return false
+		}
+		timeOnlyMemo[f] = false
+		for _, b := range f.Blocks {
+			for _, in := range b.Instrs {
+				switch x := in.(type) {
+				case *ssa.FieldAddr:
+					if fv := an.FieldVar(x.X.Type(), x.Field); fv != nil && fv.Name() == "Value" {
+						return false
+					}
+				case *ssa.Field:
+					if fv := an.FieldVar(x.X.Type(), x.Field); fv != nil && fv.Name() == "Value" {
+						return false
+					}
+				case *ssa.Call:
+					if cal := x.Call.StaticCallee(); cal != nil && strings.HasPrefix(cal.Name(), "GetValue") {
+						return false
+					}
+					if cal := x.Call.StaticCallee(); cal != nil && an.PkgPathOf(cal) == core.ModPath {
+						if !timeOnly(cal, depth+1) {
+							return false
+						}
+						continue
+					}
+					if !allowedCallee(x) {
+						return false
+					}
+				case *ssa.Go, *ssa.Defer, *ssa.Store, *ssa.MapUpdate, *ssa.Send:
+					return false
+				}
+			}
+		}
+		timeOnlyMemo[f] = true
+		return true
+	}
+	allowedCallee = func(call *ssa.Call) bool {
 		f := call.Call.StaticCallee()
 		if bi, ok := call.Call.Value.(*ssa.Builtin); ok {
 			return bi.Name() == "len"
@@ -559,7 +605,7 @@ func c02DecideByTime(c *Ctx) {
 		switch {
 		case p == "time":
 			return true
-		case p == core.ModPath && (f.Name() == "UpdateTime" || f.Name() == "DeleteUpdateTime" || f.Name() == "hideDeletedValue"):
+		case p == core.ModPath && timeOnly(f, 0):
 			return true
 		case strings.HasSuffix(p, "durationpb"):
 			return true
